@@ -479,6 +479,20 @@ def _install_operator_dunders():
 
     for nm in ("__neg__", "__pos__", "__invert__", "__abs__"):
         setattr(UserInstance, nm, unary(nm))
+
+    def conversion(name, fallback=None):
+        def f(self):
+            m = self._uc_special(name) or (self._uc_special(fallback) if fallback else None)
+            if m is None:
+                raise TypeError(f"'{self._uc_class._uc_name}' object cannot be interpreted through {name}")
+            return m.clo(self)
+
+        f.__name__ = name
+        return f
+
+    UserInstance.__int__ = conversion("__int__", "__index__")
+    UserInstance.__index__ = conversion("__index__")
+    UserInstance.__float__ = conversion("__float__", "__index__")
     for base in ("add", "sub", "mul", "matmul", "truediv", "floordiv", "mod", "pow", "lshift", "rshift", "and", "or", "xor"):
         for nm in (f"__{base}__", f"__r{base}__"):
             setattr(UserInstance, nm, binary(nm))
